@@ -347,18 +347,12 @@ func (m *{{ .Name }}) Delete(k {{ .KeyType }}) {
 }
 
 func (m *{{ .Name }}) delete(k {{ .KeyType }}) {
-var kk {{ .KeyType }}
-	i := -1
-
-	for i, kk = range m.order {
+	delete(m.data, k)
+	for i, kk := range m.order {
 		if kk == k {
+			m.order = append(m.order[:i], m.order[i+1:]...)
 			break
 		}
-	}
-
-	delete(m.data, k)
-	if i != -1 {
-		m.order = append(m.order[:i], m.order[i+1:]...)
 	}
 }
 
@@ -367,7 +361,7 @@ func (m *{{ .Name }}) Filter(fn filter{{ .CapitalizedName }}Func) {
 	m.mx.Lock()
 	defer m.mx.Unlock()
 
-	for _, k := range m.order {
+	for _, k := range append([]{{ .KeyType }}(nil), m.order...) {
 		if !fn(k, m.data[k]) {
 			m.delete(k)
 		}
